@@ -145,7 +145,9 @@ func buildFixture() *schemabuilder.Schema {
 	leaf := s.Object("Leaf", Leaf{})
 	leaf.Key("id")
 	leaf.FieldFunc("upper", func(l *Leaf) string { return strings.ToUpper(l.Name) })
-	s.Object("Other", Other{})
+	other := s.Object("Other", Other{})
+	// same field name as Leaf.id (a scalar there), but an object here
+	other.FieldFunc("id", func(o *Other) *Leaf { return &Leaf{int64(o.Code), "of-other"} })
 	s.Mutation().FieldFunc("noop", func() bool { return true })
 	return s
 }
@@ -213,6 +215,109 @@ func generate(a *advert.Advertised, depth int) []qcase {
 	return out
 }
 
+// sharedFragments: one named fragment spread at two positions. The fragment's selections are parsed once and shared by
+// both spreads, so everything validation (or the executor) remembers on a selection is remembered across positions.
+// Same type at both positions => well-formed; a position whose type lacks the field, or has it with the other
+// leaf/composite kind, => ill-formed, in both spread orders.
+func sharedFragments(a *advert.Advertised) []qcase {
+	type wrapFn func(alias string, inner []*advert.Sel) *advert.Sel
+	paths := map[string][]wrapFn{}
+	var order []string
+	addPath := func(t string, w wrapFn) bool {
+		if len(paths[t]) >= 2 {
+			return false
+		}
+		if len(paths[t]) == 0 {
+			order = append(order, t)
+		}
+		paths[t] = append(paths[t], w)
+		return true
+	}
+	var expand func(t *advert.TypeDef, mk func(alias string, s *advert.Sel) *advert.Sel, d int)
+	expand = func(t *advert.TypeDef, mk func(alias string, s *advert.Sel) *advert.Sel, d int) {
+		for i := range t.Fields {
+			f := &t.Fields[i]
+			ft := a.Types[f.Type.Named().Name]
+			switch ft.Kind {
+			case "OBJECT":
+				w := func(alias string, inner []*advert.Sel) *advert.Sel {
+					return mk(alias, &advert.Sel{Alias: f.Name, Field: f, Sub: inner})
+				}
+				if addPath(ft.Name, w) && d > 0 {
+					expand(ft, func(alias string, s *advert.Sel) *advert.Sel { return w(alias, []*advert.Sel{s}) }, d-1)
+				}
+			case "UNION":
+				for _, pt := range ft.PossibleTypes {
+					pt := pt
+					w := func(alias string, inner []*advert.Sel) *advert.Sel {
+						on := map[string][]*advert.Sel{}
+						for _, o := range ft.PossibleTypes {
+							on[o.Name] = []*advert.Sel{{Alias: "tn"}}
+						}
+						on[pt.Name] = inner
+						return mk(alias, &advert.Sel{Alias: f.Name, Field: f, OnType: on})
+					}
+					if addPath(pt.Name, w) && d > 0 {
+						expand(a.Types[pt.Name], func(alias string, s *advert.Sel) *advert.Sel { return w(alias, []*advert.Sel{s}) }, d-1)
+					}
+				}
+			}
+		}
+	}
+	// at the root the alias goes on the outermost field
+	expand(a.Types[a.Query], func(alias string, s *advert.Sel) *advert.Sel {
+		c := *s
+		c.Alias = alias
+		return &c
+	}, 2)
+	var out []qcase
+	spread := []*advert.Sel{{Raw: "...F"}}
+	for _, n1 := range order {
+		t1 := a.Types[n1]
+		for i := range t1.Fields {
+			f1 := &t1.Fields[i]
+			body := []*advert.Sel{a.SelectField(f1, f1.Name, 0)}
+			def := " fragment F on " + n1 + " { " + a.Print(body) + " }"
+			leaf1 := advert.IsLeaf(a.Types[f1.Type.Named().Name])
+			for _, n2 := range order {
+				kind, ok := "", false
+				if n1 == n2 {
+					kind, ok = "shared-fragment-same-type", true
+				} else {
+					var f2 *advert.FieldDef
+					for j := range a.Types[n2].Fields {
+						if a.Types[n2].Fields[j].Name == f1.Name {
+							f2 = &a.Types[n2].Fields[j]
+						}
+					}
+					switch {
+					case f2 == nil:
+						kind = "shared-fragment-unknown-field"
+					case advert.IsLeaf(a.Types[f2.Type.Named().Name]) != leaf1:
+						kind = "shared-fragment-leaf-vs-composite"
+					default:
+						continue // same name and kind under another type: the property does not say
+					}
+				}
+				for _, w1 := range paths[n1] {
+					for _, w2 := range paths[n2] {
+						for _, flip := range []bool{false, true} {
+							x, y := w1("a", spread), w2("b", spread)
+							rx, ry := w1("a", body), w2("b", body)
+							if flip {
+								x, y = w2("a", spread), w1("b", spread)
+								rx, ry = w2("a", body), w1("b", body)
+							}
+							out = append(out, qcase{text: "{ " + a.Print([]*advert.Sel{x, y}) + " }" + def, root: []*advert.Sel{rx, ry}, wellFormed: ok, kind: kind})
+						}
+					}
+				}
+			}
+		}
+	}
+	return out
+}
+
 func run(rp *explore.Report, tier string) {
 	sb := buildFixture()
 	var raw []byte
@@ -230,7 +335,7 @@ func run(rp *explore.Report, tier string) {
 	if tier == "thorough" {
 		depth = 3
 	}
-	cases := generate(adv, depth)
+	cases := append(generate(adv, depth), sharedFragments(adv)...)
 	var k int64
 	fail := func(clause, class, item, format string, a ...interface{}) {
 		rp.AddViolation(&explore.Violation{Item: item, Signature: "c14/" + clause + "/" + class, Stable: true,
@@ -277,5 +382,5 @@ func run(rp *explore.Report, tier string) {
 
 func init() {
 	reg.Register(&reg.Harness{Property: "C14", Name: "c14/advertised", Level: "exploration", Run: run,
-		Rule: "fixture of Go shapes (all scalar widths, named scalars, enum, time, bytes, text-marshaler, pointers, slices of values/pointers/enums, nested and value structs, union, NonNullable / ListEntryNonNullable / Expensive / batch methods, methods with every signature form, arguments incl. input objects) -> introspection JSON. From the JSON alone: every path of composite fields up to depth 2 (thorough 3), ending in all leaves / all fields / each field alone / the same field under two aliases (arguments filled from advertised input types), plus at every position the three ill-formedness kinds (unknown field, selection on a leaf, none on a composite). Oracle: ill-formed => rejected; well-formed => accepted, executes without error under FIFO and LIFO schedulers, and the response conforms to the advertised types (exact aliases, lists, scalar JSON kinds, enum values, null only where nullable, list entries excepted)"})
+		Rule: "fixture of Go shapes (all scalar widths, named scalars, enum, time, bytes, text-marshaler, pointers, slices of values/pointers/enums, nested and value structs, union, NonNullable / ListEntryNonNullable / Expensive / batch methods, methods with every signature form, arguments incl. input objects) -> introspection JSON. From the JSON alone: every path of composite fields up to depth 2 (thorough 3), ending in all leaves / all fields / each field alone / the same field under two aliases (arguments filled from advertised input types), plus at every position the three ill-formedness kinds (unknown field, selection on a leaf, none on a composite), plus one named fragment (each field of each object type) spread at two positions: the same type twice (well-formed) or a second type that lacks the field or has it with the other leaf/composite kind (ill-formed), in both orders. Oracle: ill-formed => rejected; well-formed => accepted, executes without error under FIFO and LIFO schedulers, and the response conforms to the advertised types (exact aliases, lists, scalar JSON kinds, enum values, null only where nullable, list entries excepted)"})
 }
